@@ -383,7 +383,9 @@ func TestC11(t *testing.T) {
 				os = append(os, o)
 			}
 			sort.Strings(os)
-			rep.Violate("C11|result-depends-on-arrival-order|"+string(c.Mode)+"|"+c11orderShape(os), fmt.Sprintf("%s: %d distinct committed entry sets over %d arrival orders: %v", c, len(os), e.Execs, os), map[string]interface{}{"case": c.String()})
+			for _, shape := range c11orderShape(os) {
+				rep.Violate("C11|result-depends-on-arrival-order|"+string(c.Mode)+"|"+shape, fmt.Sprintf("%s: %d distinct committed entry sets over %d arrival orders: %v", c, len(os), e.Execs, os), map[string]interface{}{"case": c.String()})
+			}
 		}
 		rep.Add("arrival_orders_explored", int64(e.Execs))
 	}, func(i int, how, output string) {
@@ -397,7 +399,7 @@ func TestC11(t *testing.T) {
 
 // c11orderShape classifies how the committed entry sets of different arrival orders differ: in the main tree, or only
 // in the conflict/checkpoint entries (and then whether the unstable entries duplicate the winning content or a losing one).
-func c11orderShape(outcomes []string) string {
+func c11orderShape(outcomes []string) []string {
 	parse := func(o string) map[string]string {
 		m := map[string]string{}
 		for _, kv := range strings.Split(o, ";") {
@@ -410,7 +412,7 @@ func c11orderShape(outcomes []string) string {
 	var sets []map[string]string
 	for _, o := range outcomes {
 		if o == "refused" || o == "" {
-			return "commit-outcome-differs"
+			return []string{"commit-outcome-differs"}
 		}
 		sets = append(sets, parse(o))
 	}
@@ -428,7 +430,7 @@ func c11orderShape(outcomes []string) string {
 				continue
 			}
 			if !isSide(n) {
-				return "main-tree-differs"
+				return []string{"main-tree-differs"}
 			}
 			parts := strings.SplitN(n, "/", 3)
 			if len(parts) == 3 && a[parts[2]] == h {
@@ -443,5 +445,8 @@ func c11orderShape(outcomes []string) string {
 		ks = append(ks, k)
 	}
 	sort.Strings(ks)
-	return "conflict-entries-only|" + strings.Join(ks, "+")
+	for i := range ks {
+		ks[i] = "conflict-entries-only|" + ks[i]
+	}
+	return ks
 }
